@@ -23,7 +23,7 @@ def main(chk, tier):
         chk.configs.append(cfgname)
         chk.units = len(db.units)
         chk.functions_analysed += len(db.functions)
-        e = escape.Escape(db, tab, BITS)
+        e = escape.Escape(db, tab, BITS + 'R')
         res, reqv = e.run()
         escape.report(chk, e, res, reqv, 'C01.1', cfgname, BITS)
         contracts.verify(chk, db, cfgname, 'C01.2', BITS)
